@@ -332,6 +332,43 @@ impl Monitor for C03 {
                             return Err(v);
                         }
                     }
+                    // ---- derived (fork of the state after the swap): one-pool routes whose third
+                    // operation does not continue the second - [x->y, y->x, y->x] - are refused by
+                    // the router; should one ever execute, the trader must not end with more of the
+                    // start denom than was offered (the third hop would be booking x as y)
+                    if let Some(p) = post.pool(pool_identifier) {
+                        for (x, y) in [(od.clone(), ask_asset_denom.clone()), (ask_asset_denom.clone(), od.clone())] {
+                            let rx = p.pool_info.assets.iter().find(|a| a.denom == x).map(|a| a.amount.u128()).unwrap_or(0);
+                            let amt = (rx / 200).max(1);
+                            let hop = |i: &String, o: &String| mantra_dex_std::pool_manager::SwapOperation::MantraSwap {
+                                token_in_denom: i.clone(),
+                                token_out_denom: o.clone(),
+                                pool_identifier: pool_identifier.clone(),
+                            };
+                            let ops = vec![hop(&x, &y), hop(&y, &x), hop(&y, &x)];
+                            let snap = c.fork();
+                            c.w.faucet(&s, vec![coin(amt, x.clone())]);
+                            let o = c.exec_op(
+                                &Op::Pm {
+                                    sender: sender.clone(),
+                                    msg: PmMsg::ExecuteSwapOperations { operations: ops, minimum_receive: None, receiver: None, max_slippage: Some(Decimal::percent(50)) },
+                                    funds: vec![coin(amt, x.clone())],
+                                },
+                                None,
+                            );
+                            c.w.restore(&snap);
+                            c.stats.bump(if o.ok() { "probe.c03.broken_link_route_executed" } else { "probe.c03.broken_link_route_refused" });
+                            if o.ok() {
+                                let back: u128 = o.attr("return_amount").and_then(|v| v.parse().ok()).unwrap_or(0);
+                                if back > amt {
+                                    return Err(viol(
+                                        "C03.profitable_cycle",
+                                        format!("one-pool route [{x}->{y}, {y}->{x}, {y}->{x}] on {pool_identifier} executed although its third operation does not continue the second, offered {amt}{x} and returned {back}{x}"),
+                                    ));
+                                }
+                            }
+                        }
+                    }
                 }
             }
         }
